@@ -159,9 +159,12 @@ theorem parseFunctionParameters_inv (fuel : Nat) (st : PState) (hi : Inv s st) :
     intro b st2 h2
     split
     · exact h2
-    · wvc; split
-      · trivial
+    · split
       · exact h2
+      · wvc
+        apply errorLine_wp
+        wvc
+        exact inv_pushErr _ h2
 
 end Grol.Parser
 
